@@ -75,6 +75,7 @@ impl Dgj {
     fn filter_vertices<P: Fn(usize) -> bool>(&self, predicate: P) -> (r: Dgj)
         requires
             self.wf(),
+            self.verts().len() >= 1,   // a digraph has at least one vertex (AdjacencyMap::wf; rep_trait_contracts_fv::lemma_map_wf_gap)
             fv_callable(predicate),
             fv_det(predicate),
         ensures
